@@ -289,13 +289,25 @@ func (api *API) mapEncodeStructFields(
 				return ierrors.Errorf("failed to cast inlined struct field %s to map", sField.name)
 			}
 
-			for _, k := range castedEleOut.Keys() {
-				// what an inlined interface contributes depends on its implementation: its keys must not be keys of the
-				// other members of the struct (see collectStructKeys), whether those are written this time or not
-				if _, occupied := keysOfType[k]; occupied && DeRefPointer(sField.fType).Kind() == reflect.Interface {
-					err = ierrors.Errorf("key %q is used more than once in the map form of the struct", k)
+			// the keys that the member contributes by its type are part of keysOfType already (see collectStructKeys);
+			// what an inlined interface - the member itself or one inside it - contributes depends on the
+			// implementation: those keys must not be keys of the other members of the struct, whether those are written
+			// this time or not
+			ownKeys := make(map[string]struct{})
+			if memberType := DeRefPointer(sField.fType); memberType.Kind() == reflect.Struct {
+				if memberTypeSettings, _ := api.typeSettingsRegistry.GetByType(memberType); memberTypeSettings.ObjectType() != nil {
+					ownKeys[keyType] = struct{}{}
+				}
+				_ = api.collectStructKeys(memberType, ownKeys)
+			}
 
-					break
+			for _, k := range castedEleOut.Keys() {
+				if _, own := ownKeys[k]; !own {
+					if _, occupied := keysOfType[k]; occupied {
+						err = ierrors.Errorf("key %q is used more than once in the map form of the struct", k)
+
+						break
+					}
 				}
 				if err = setUniqueKey(obj, k, lo.Return1(castedEleOut.Get(k))); err != nil {
 					break
